@@ -67,7 +67,7 @@ def streams_of_system(system):
     return out
 
 
-def run_model_history(bdir, system, events, breakdown=False):
+def run_model_history(bdir, system, events, breakdown=False, fsize_blocks=None):
     d = core.mkscratch("prv")
     try:
         td = os.path.join(d, "ovni")
@@ -78,7 +78,7 @@ def run_model_history(bdir, system, events, breakdown=False):
                 extra.setdefault(k, {})["nosv.can_breakdown"] = True
         clocks = synth.materialise(td, system, conc, models=emuhist.require_for(set(system["models"])),
                                    meta_extra=extra)
-        r = emu.ovniemu(bdir, td, ("-b", "-l") if breakdown else ("-l",))
+        r = emu.ovniemu(bdir, td, ("-b", "-l") if breakdown else ("-l",), fsize_blocks=fsize_blocks)
         if not r.accepted:
             return None, r
         last = max(clocks) - min(clocks)
@@ -191,9 +191,16 @@ def main(pid, tier):
 
     jobs += special_families()
 
+    # output faults: the longest histories once more with the output files limited to 512 / 1536 bytes
+    # (writes beyond that fail): either the emulator reports the failure, or what it wrote is well-formed
+    longest = sorted([j for j in jobs if j[0].startswith("model:")], key=lambda j: -len(j[2]))[:12]
+    jobs += [("fault:" + j[0] + ":%d" % nb, j[1], j[2]) for j in longest for nb in (1, 3)]
+
     def one(j):
         if j[0] == "system":
             return run_sys_case(bdir, j[2])
+        if j[0].startswith("fault:"):
+            return run_model_history(bdir, j[1], j[2], fsize_blocks=int(j[0].rsplit(":", 1)[1]))
         return run_model_history(bdir, j[1], j[2], breakdown=j[0].startswith("breakdown"))
 
     results = core.pmap(one, jobs)
